@@ -75,7 +75,7 @@ func signHandshake(id *tlsgen.CertKeyPair, h comm.Handshake) comm.Handshake {
 }
 
 // newConnWorld must be called inside the bubble (certificates are created on the simulated clock).
-func newConnWorld(seed uint64, n int, domain string) *connWorld {
+func newConnWorld(seed uint64, n int, domain string, extraRegistered ...map[int][]byte) *connWorld {
 	cw := &connWorld{w: netsim.NewWorld(seed), net: connsim.NewNet(seed), parties: map[int]*connParty{}, domain: domain, log: NewCountLogger(), p2id: map[string]uint16{}}
 	ca, err := tlsgen.NewCA()
 	if err != nil {
@@ -94,6 +94,12 @@ func newConnWorld(seed uint64, n int, domain string) *connWorld {
 		cw.parties[i] = p
 		cw.ids = append(cw.ids, i)
 		cw.p2id[lookupKey(domain, id.Cert)] = uint16(i)
+	}
+	// further registered identities that no running party owns (e.g. identities with unsupported key types)
+	for _, m := range extraRegistered {
+		for id, pemBytes := range m {
+			cw.p2id[lookupKey(domain, pemBytes)] = uint16(id)
+		}
 	}
 	for _, i := range cw.ids {
 		p := cw.parties[i]
